@@ -65,7 +65,7 @@ class c11_lemma:
                 ("astimezone_returns_a_DateTime_equal_to_the_native_conversion", And(eq(spec.wall_us(a), zones.render_wall(tz, u)), eq(a.fold, zones.fold_of(tz, u))) if a.cls is DateTime else False)]
 
 
-CONTRACTS = ["pendulum.datetime.DateTime.astimezone", "props.C11.c11_overrides"]
+CONTRACTS = ["pendulum.datetime.DateTime.astimezone", "props.C11.c11_overrides", "pendulum.time.Time.replace"]
 LEMMAS = ["C11.frame_inherited_accessors"]
 CANARIES = []
 ASSUMPTIONS = [
